@@ -853,6 +853,59 @@ func messageCases() []rtCase {
 		}
 		return sess.CMPSign(w.orig, w.ids, msg32), w.ids, w.pub, nil
 	})
+	// abort notices (round 0) are wire messages of the library too: what a party emits when it is stopped, or when it
+	// detects a fault, must survive the codec, and the peer that is given the restored notice must end with an error
+	for _, two := range []bool{false, true} {
+		two := two
+		name := "abort-notice/multi"
+		if two {
+			name = "abort-notice/two-party"
+		}
+		cases = append(cases, rtCase{Name: "rt|protocol.Message|use|" + name, run: func() []finding {
+			var spec *sess.Spec
+			if two {
+				spec = sess.DoernerKeygen("a", "b")
+			} else {
+				spec = sess.FrostKeygen(ids3, 1, false)
+			}
+			net, startErr := sess.Build(spec, *vkit.Seed, "c15-abort")
+			if len(startErr) > 0 {
+				return []finding{{"harness|abort-notice", fmt.Sprint(startErr)}}
+			}
+			a := net.Parties[spec.IDs[0]]
+			before := len(a.Sent)
+			a.Guard(func() { a.H.Stop() })
+			var fs []finding
+			n := 0
+			for _, m := range a.Sent[before:] {
+				n++
+				rest, _, f := throughCodec(k, m)
+				fs = append(fs, f...)
+				if rest == nil {
+					fs = append(fs, finding{rtSig(k.name, "abort notice cannot be restored"), fmt.Sprintf("%s: the message a stopped handler emits (%s) does not survive MarshalBinary+UnmarshalBinary", name, m)})
+					continue
+				}
+				m2 := rest.(*protocol.Message)
+				if d := msgEqual(m, m2); len(d) > 0 {
+					fs = append(fs, finding{rtSig(k.name, "abort notice differs after restore"), fmt.Sprintf("%s: fields %v differ", name, d)})
+				}
+				for _, id := range spec.IDs[1:] {
+					if m2.IsFor(id) {
+						p := net.Parties[id]
+						p.Deliver(m2)
+						if p.Status() != "error" {
+							fs = append(fs, finding{rtSig(k.name, "restored abort notice has no effect"), fmt.Sprintf("%s: party %s is %s after being given the restored abort notice of %s", name, id, p.Status(), spec.IDs[0])})
+						}
+					}
+				}
+			}
+			wireMessages += n
+			if n == 0 {
+				fs = append(fs, finding{"harness|abort-notice", name + ": Stop emitted no message"})
+			}
+			return fs
+		}})
+	}
 	// key generation sessions: the results must form one consistent sharing
 	for _, tap := range []bool{false, true} {
 		tap := tap
